@@ -41,7 +41,7 @@ func (g *GraphSpec) Validate() error {
 // GenGraph draws a DAG with n nodes and a timestamp regime.
 func GenGraph(r *Rand, n int) GraphSpec {
 	g := GraphSpec{Parents: make([][]int, n), Times: make([]int64, n)}
-	shape := r.Intn(5) // 0 mixed, 1 linear-ish, 2 bushy, 3 diamonds, 4 multi-root
+	shape := r.Intn(6) // 0 mixed, 1 linear-ish, 2 bushy, 3 diamonds, 4 multi-root, 5 ladder
 	for i := 1; i < n; i++ {
 		np := 1
 		x := r.Intn(100)
@@ -70,6 +70,17 @@ func GenGraph(r *Rand, n int) GraphSpec {
 			} else if x < 34 {
 				np = 3
 			}
+		}
+		if shape == 5 {
+			// ladder: two commits per level, each with both commits of the level
+			// below as parents (the number of paths doubles per level)
+			lvl := (i + 1) / 2
+			if lvl == 1 {
+				g.Parents[i] = []int{0}
+			} else {
+				g.Parents[i] = []int{2*(lvl-1) - 1, 2 * (lvl - 1)}
+			}
+			continue
 		}
 		if shape == 3 {
 			// chain of diamonds: a; b,c <- a; d <- b,c; ...
